@@ -63,14 +63,22 @@ Definition e_ctor (v : val) : val :=     (* Reply(code, text): [0; code; raw_mes
   | _ => verr
   end.
 
-(* setter operations on a fresh Reply(): [[tag; arg]; ...], tag 0 code / 1 message / 2 ESC str ([] = None) / 3 ESC False.
-   -> [code; message shown; [esc]; wire; raised flags; 1 if _esc is False] *)
-Definition rop_of (v : val) : rop :=
+(* operations on a fresh Reply(): [[tag; arg]; ...], tag 0 code / 1 message / 2 ESC str ([] = None) / 3 ESC False /
+   4 copy(other), arg = the flat operation list that builds `other` / 5 send.
+   -> [code; message shown; [esc]; wire; raised flags; 1 if _esc is False;
+       [[code; message; [esc]; wire; 1 if _esc is False] for every send]] *)
+Definition rop_flat (v : val) : rop :=
   match v with
   | VL [VN 0; VB c] => ROCode c
   | VL [VN 1; VB m] => ROMsg m
   | VL [VN 2; VB e] => ROEsc e
+  | VL [VN 5; _] => ROSend
   | _ => ROEscFalse
+  end.
+Definition rop_of (v : val) : rop :=
+  match v with
+  | VL [VN 4; VL sub] => ROCopy (rops_run udigit uspace (map rop_flat sub))
+  | _ => rop_flat v
   end.
 Fixpoint ops_trace (r : reply) (ops : list rop) : reply * list val :=
   match ops with
@@ -80,14 +88,16 @@ Fixpoint ops_trace (r : reply) (ops : list rop) : reply * list val :=
       let '(r', fl) := ops_trace (rop_step udigit uspace r o) ops' in
       (r', VN raised :: fl)
   end.
+Definition v_esc (r : reply) : val := match get_esc r with Some e => VL [VB e] | None => VL [] end.
+Definition v_escfalse (r : reply) : val := VN (match r_esc r with EscFalse => 1 | _ => 0 end).
 Definition e_ops (v : val) : val :=
   match v with
   | VL ops =>
-      let '(r, fl) := ops_trace fresh_reply (map rop_of ops) in
-      VL [VB (r_code r); VB (get_message r);
-          match get_esc r with Some e => VL [VB e] | None => VL [] end;
-          VB (wire_of r); VL fl;
-          VN (match r_esc r with EscFalse => 1 | _ => 0 end)]
+      let rops := map rop_of ops in
+      let '(r, fl) := ops_trace fresh_reply rops in
+      VL [VB (r_code r); VB (get_message r); v_esc r; VB (wire_of r); VL fl; v_escfalse r;
+          VL (map (fun s => VL [VB (r_code s); VB (get_message s); v_esc s; VB (wire_of s); v_escfalse s])
+                  (rops_sent udigit uspace fresh_reply rops))]
   | _ => verr
   end.
 
